@@ -42,6 +42,8 @@ type minst struct {
 	peer     int    // index of the instance whose run is imported; -1 = itself
 	name     string
 	scratch  [8]byte // the bytes the atomic instructions work on
+	grafted  bool    // table slot graftSlot holds a function of another module
+	graftK   int
 }
 
 type model struct {
@@ -55,6 +57,7 @@ type model struct {
 	crossInst  int
 	onClosed   int // API-level calls that ran on an already closed instance
 	viaTable   int // host functions reached with call_indirect
+	graftCalls int // calls of a function another module left in the table
 	// trace lists, in order, every call of one of the harness' host functions together with the
 	// module the host function must have been given: the instance whose code made the call
 	trace []string
@@ -153,6 +156,12 @@ func (m *model) exec(i int, script uint64, depth, hdepth int) (uint32, *failure)
 	switch {
 	case op == opNestLocal, op == opNestIndirect:
 		r, f = m.exec(i, rest, depth+1, hdepth)
+	case op == opNestGraft:
+		if !in.grafted {
+			return 0, &failure{Kind: "trap", Detail: "invalid table access"}
+		}
+		m.graftCalls++
+		r, f = uint32(graftBase+in.graftK), nil
 	case op == opNestPeer:
 		p := in.peer
 		if p < 0 {
@@ -326,6 +335,8 @@ func describeOps(ops []int) string {
 			parts = append(parts, "call-import>")
 		case op == opNestIndirect:
 			parts = append(parts, "call-indirect>")
+		case op == opNestGraft:
+			parts = append(parts, "call-grafted-table-entry>")
 		case op >= opRec && op < opRec+nRecKinds:
 			parts = append(parts, "recurse("+recNames[op-opRec]+")")
 		case op&opCbMask == opCallback:
